@@ -378,7 +378,8 @@ Section Sep.
       eapply hb; [apply H_setitem; assumption|]. intros _ _.
       eapply hb; [apply H_getitem|]. intros _ _.
       eapply hb; [apply H_alloc|]. intros br Hbr. apply H_setitem; assumption.
-    - eapply hb; [apply H_alloc|]. intros bt Hbt.
+    - eapply hb; [apply H_getitem|]. intros _ _.
+      eapply hb; [apply H_alloc|]. intros bt Hbt.
       eapply hb; [apply H_setitem; assumption|]. intros _ _.
       eapply hb; [apply H_getitem|]. intros _ _.
       eapply hb; [apply H_alloc|]. intros br Hbr. apply H_setitem; assumption.
@@ -585,7 +586,7 @@ Section Sep.
   Lemma step_Tr o w : Inv w -> Tr w (fst (step o w)).
   Proof.
     intros Iw. pose proof Iw as (Gw & R1 & R2 & R3 & R4).
-    destruct o as [i m|i cfgf keepmc presel idx m|i cfgf keepmc m comps presel idx|i n fill gs|i|i|i l|i es|i srt l|i|i|i|i|i masks|i idx];
+    destruct o as [i m|i cfgf keepmc presel idx m|i cfgf keepmc m comps presel idx|i n fill gs|i|i|i l|i es|i srt l|i l0|i|i|i|i masks|i idx];
       cbn [step].
     - (* GenBkgFixed *)
       destruct (nth_error (w_exp w) i) as [e|]; [|apply Tr_refl; exact Iw].
@@ -660,7 +661,10 @@ Section Sep.
         * intros _ _. apply H_set_fields; exact Ht.
       + intros w' _ Iw' _. repeat split; auto; apply Iw'.
     - (* Evaluate *)
-      destruct (getroot (w_tdm w) i); apply Tr_refl; exact Iw.
+      destruct (getroot (w_tdm w) i) as [t|] eqn:Et; [|apply Tr_refl; exact Iw].
+      pose proof (getroot_ok _ _ _ R4 Et) as Ht.
+      eapply on_store_Tr with (Q := fun _ => True); [exact Iw | apply H_set_fields; exact Ht|].
+      intros w' _ Iw' _. repeat split; auto; apply Iw'.
     - (* UnblindCopy *)
       destruct (nth_error (w_exp w) i) as [e|]; [|apply Tr_refl; exact Iw].
       eapply on_store_Tr; [exact Iw | apply H_copy|].
@@ -891,7 +895,8 @@ Proof.
       eapply fb; [apply F_setitem; cbn; auto|]. intros _ _.
       eapply fb; [apply F_getitem|]. intros _ _.
       eapply fb; [apply F_alloc|]. intros br _. apply F_setitem; cbn; auto.
-    - eapply fb; [apply F_alloc|]. intros bt _.
+    - eapply fb; [apply F_getitem|]. intros _ _.
+      eapply fb; [apply F_alloc|]. intros bt _.
       eapply fb; [apply F_setitem; cbn; auto|]. intros _ _.
       eapply fb; [apply F_getitem|]. intros _ _.
       eapply fb; [apply F_alloc|]. intros br _. apply F_setitem; cbn; auto.
@@ -1174,6 +1179,7 @@ Proof.
   - apply mbind_ok in Hok as Hk; destruct Hk as (bt & _ & E1); rewrite E1 in *; clear E1.
     apply mbind_ok in Hok as Hk; destruct Hk as (u1 & _ & E1); rewrite E1 in *; clear E1.
     apply mbind_ok in Hok as Hk; destruct Hk as (u2 & _ & E1); rewrite E1 in *; clear E1.
+    apply mbind_ok in Hok as Hk; destruct Hk as (u3 & _ & E1); rewrite E1 in *; clear E1.
     rewrite (map_ext _ _ K_seas_ra_store), map_id in *.
     apply alloc_then_setitem_col. exact Hok.
   - apply mbind_ok in Hok as Hk; destruct Hk as (bt & _ & E1); rewrite E1 in *; clear E1.
@@ -1296,7 +1302,7 @@ Theorem generated_fresh : forall o w,
   end.
 Proof.
   intros o w Hok.
-  destruct o as [i m|i cfgf keepmc presel idx m|i cfgf keepmc m comps presel idx|i n fill gs|i|i|i l|i es|i srt l|i|i|i|i|i masks|i idx];
+  destruct o as [i m|i cfgf keepmc presel idx m|i cfgf keepmc m comps presel idx|i n fill gs|i|i|i l|i es|i srt l|i l0|i|i|i|i masks|i idx];
     try exact I; cbn [step] in *; intros Hi.
   - destruct (nth_error (w_exp w) i) as [e|]; [|discriminate].
     destruct (on_store_top w (scramble_data m e true) (fun w' t => set_ev w' i (Some t)) _
@@ -1449,3 +1455,10 @@ Lemma K_storage_shapes : storage_shapes_pinned = true.
 Proof. reflexivity. Qed.
 Lemma K_gs_take : forall x, gs_take x = x.
 Proof. reflexivity. Qed.
+
+Lemma K_copy_statements : copy_statements_pinned = true.
+Proof. reflexivity. Qed.
+Lemma K_copy_calls : forall x,
+  mc_cache_copy x = x /\ mc_draw_sel x = x /\ comp_mc_copy x = x /\ comp_draw_sel x = x /\
+  sig_mc_sel x = x /\ sig_redraw_sel x = x /\ ctor_empty x = x /\ ctor_copyto x = x.
+Proof. intros x. repeat split. Qed.
